@@ -1409,7 +1409,7 @@ func TestProp(t *testing.T) {
 
 // TestPropExhaustive (thorough tier): for small generated logs (newest file
 // <= 3 KiB) every truncation offset and every byte position x {bit flip, 0x00,
-// 0xFF, +1} is checked at level 1. A few logs per process; the remaining
+// 0xFF, +1} is checked at level 1. Six logs per process; the remaining
 // iterations return at once.
 func TestPropExhaustive(t *testing.T) {
 	if ev.Tier() != "thorough" {
@@ -1417,7 +1417,7 @@ func TestPropExhaustive(t *testing.T) {
 	}
 	done := 0
 	rapid.Check(t, func(t *rapid.T) {
-		if done >= 4 {
+		if done >= 6 {
 			return
 		}
 		c := genLog(t, 12, true)
